@@ -400,12 +400,13 @@ theorem generated_client_table :
        (22, "MaskWriteRegisterResponse"), (23, "ReadWriteMultipleRegistersResponse"), (24, "ReadFifoQueueResponse"),
        (43, "ReadDeviceInformationResponse")] := by decide
 
-/-- the 17 diagnostic sub-functions and MEI type 0x0E, both directions -/
+/-- the 17 diagnostic sub-functions and MEI type 0x0E, both directions, with the class each
+    sub-function code dispatches to -/
 theorem generated_sub_tables :
-    Generated.serverSubTable.map (fun x => (x.1, x.2.1)) =
-      (Impl.diagSubs.map (fun s => (8, s))) ++ [(43, 14)] ∧
-    Generated.clientSubTable.map (fun x => (x.1, x.2.1)) =
-      (Impl.diagSubs.map (fun s => (8, s))) ++ [(43, 14)] ∧
+    Generated.serverSubTable =
+      (Impl.diagSubs.map (fun s => (8, s, Impl.diagReqClass s))) ++ [(43, 14, "ReadDeviceInformationRequest")] ∧
+    Generated.clientSubTable =
+      (Impl.diagSubs.map (fun s => (8, s, Impl.diagRespClass s))) ++ [(43, 14, "ReadDeviceInformationResponse")] ∧
     Generated.exceptionOffset = 0x80 ∧
     Generated.excCodes = [("Acknowledge", 5), ("GatewayNoResponse", 11), ("GatewayPathUnavailable", 10),
       ("IllegalAddress", 2), ("IllegalFunction", 1), ("IllegalValue", 3), ("MemoryParityError", 8),
